@@ -65,6 +65,9 @@ def explore(ctx, mod, fn, cases, bound, cap=None, chunksize=4, stats=None, stop_
                 continue
             nxt.extend((ci, k) for k in kids)
         frontier = [(ci, k) for ci, k in nxt if ci not in dead]
+        if st.executions - getattr(st, "_last_note", 0) >= 20000:
+            st._last_note = st.executions
+            ctx.note("... %d executions so far, next wave %d, %.0fs" % (st.executions, len(frontier), ctx.elapsed()))
         if st.capped:
             break
     if not st.capped:
